@@ -891,3 +891,197 @@ def worker(task):
     except Exception:  # noqa
         import traceback
         return dict(name=scn['name'], error=traceback.format_exc())
+
+
+# ------------------------------------------------------------------------------------------
+# AsyncStateMachine: READ operations that have to WRITE (KeyUpdate answer, heartbeat response,
+# post-handshake authentication, close_notify answer) under would-block / partial accepts on
+# exactly those replies.  The replying endpoint R is driven only through AsyncStateMachine events
+# by a select()-like loop; its peer P through generators.
+REPLY_KINDS = [('plain', (3, 3)), ('plain', (3, 4)), ('plain', (3, 1)), ('heartbeat', (3, 3)), ('heartbeat', (3, 4)),
+               ('keyupdate', (3, 4)), ('keyupdate2', (3, 4)), ('pha', (3, 4))]
+
+
+def reply_schedules(rng, n_random):
+    S = [
+        dict(block_send=1),
+        dict(block_send=3),
+        dict(block_send=[0]),                       # only the first send of the reply blocks
+        dict(block_send=[0, 1, 2]),
+        dict(block_send=[1, 2]),
+        dict(send='one'),
+        dict(send='small', block_send=[0, 2, 3, 7]),
+        dict(send='small', block_send=1, recv='one', block_recv=1),
+        dict(recv='one'),
+        dict(block_send='rand', send='rand', interleave='rand'),
+    ]
+    for _ in range(n_random):
+        S.append(dict(block_send=rng.choice([1, 2, 'rand', [0], [0, 1], [1], [2, 3]]),
+                      send=rng.choice(['all', 'one', 'small', 'rand']),
+                      recv=rng.choice(['all', 'one', 'small']), block_recv=rng.choice([0, 0, 1, 'rand']),
+                      interleave=rng.choice([None, 'rand'])))
+    for s in S:
+        s['seed'] = rng.getrandbits(32)
+        s['api'] = 'asm-reply'
+    return S
+
+
+def _blocks2(spec, seed):
+    if isinstance(spec, list):
+        n = max(spec) + 1 if spec else 0
+        return iter([i in spec for i in range(n)])
+    return _blocks(spec, seed)
+
+
+def run_reply(kind, ver, sched, seed):
+    """Returns a canonical outcome dict."""
+    from tlslite.constants import KeyUpdateMessageType
+    epr = EpRandom(seed).install()
+    clock = FakeClock().install()
+    try:
+        csock, ssock = sockpair2()
+        client, server = TLSConnection(csock), TLSConnection(ssock)
+        hb_seen = []
+        cset = settings(minv=ver, maxv=ver)
+        sset = settings(minv=ver, maxv=ver)
+        cset.heartbeat_response_callback = lambda m: hb_seen.append(bytes(m.payload))
+        chain, key = creds('rsa')
+        ckw = dict(settings=cset, async_=True)
+        if kind == 'pha':
+            ckw['certChain'], ckw['privateKey'] = creds('client-rsa')
+        r = drive2([tagged(client.handshakeClientCert(**ckw), 'client', epr),
+                    tagged(server.handshakeServerAsync(certChain=chain, privateKey=key, settings=sset), 'server', epr)])
+        out = {'hs': (classify(r[0]), classify(r[1]))}
+        if out['hs'] != (('ok',), ('ok',)):
+            return out
+        # R replies inside its read operation; P provokes the reply
+        if kind == 'pha':
+            R, P, rsock, tagR, tagP = client, server, csock, 'client', 'server'
+        else:
+            R, P, rsock, tagR, tagP = server, client, ssock, 'server', 'client'
+        psock = rsock.peer
+        m = _ASM(R)
+        # the schedule applies to R's socket from here on (the replies)
+        rsock.recv_sizes = _sizes(sched.get('recv'), '%s/r' % sched.get('seed'))
+        rsock.send_sizes = _sizes(sched.get('send'), '%s/s' % sched.get('seed'))
+        rsock.block_recv = _blocks(sched.get('block_recv'), '%s/br' % sched.get('seed'))
+        rsock.block_send = _blocks2(sched.get('block_send'), '%s/bs' % sched.get('seed'))
+        rsock.sendall_blocks = True
+        rng = random.Random('%s/drv' % sched.get('seed')) if sched.get('interleave') == 'rand' else None
+        errs = {'R': None, 'P': None}
+
+        def sig():
+            return (len(csock.inbuf), len(ssock.inbuf), len(csock.sent_log), len(ssock.sent_log), len(m.reads),
+                    m.closed_events, m.write_events if m.result is not None else 0)
+
+        def pump(until, peer_gens=()):
+            """select()-like loop: one event for R according to wants*Event, one step of each peer generator"""
+            gens = [tagged(g, tagP, epr) for g in peer_gens]
+            active = list(range(len(gens)))
+            pres = [None] * len(gens)
+            idle, steps, last = 0, 0, sig()
+            while True:
+                if errs['R'] is None and until() and not active:
+                    return pres
+                for i in list(active):
+                    try:
+                        v = next(gens[i])
+                        if not isinstance(v, int):
+                            pres[i] = v
+                    except StopIteration:
+                        active.remove(i)
+                    except Exception as e:  # noqa
+                        errs['P'] = e
+                        active.remove(i)
+                if errs['R'] is None and not until():
+                    epr.cur = tagR
+                    try:
+                        if m.wantsWriteEvent():
+                            m.inWriteEvent()          # the socket is writable
+                        else:
+                            m.inReadEvent()           # the socket is (or may be) readable
+                    except Exception as e:  # noqa
+                        errs['R'] = e
+                    finally:
+                        epr.cur = 'main'
+                elif errs['R'] is not None and not active:
+                    return pres
+                steps += 1
+                now = sig()
+                idle = 0 if now != last else idle + 1
+                last = now
+                if idle > 3000 or steps > 1000000:
+                    errs['R'] = errs['R'] or Deadlock('AsyncStateMachine makes no progress (wantsRead=%r wantsWrite=%r)'
+                                                      % (m.wantsReadEvent(), m.wantsWriteEvent()))
+                    return pres
+
+        def provoke():
+            if kind in ('keyupdate', 'keyupdate2'):
+                for x in P.send_keyupdate_request(KeyUpdateMessageType.update_requested):
+                    yield x
+                if kind == 'keyupdate2':        # two requests back to back, then data
+                    for x in P.send_keyupdate_request(KeyUpdateMessageType.update_requested):
+                        yield x
+            elif kind == 'heartbeat':
+                for x in P.write_heartbeat(bytearray(b'hb-payload'), 16):
+                    yield x
+            elif kind == 'pha':
+                for x in P.request_post_handshake_auth():
+                    yield x
+            for x in P.writeAsync(b'ping'):
+                yield x
+
+        pump(lambda: b''.join(m.reads) == b'ping', [provoke()])
+        out['ping'] = b''.join(m.reads)
+        if errs['R'] is None and errs['P'] is None:
+            m.reads = []
+            epr.cur = tagR
+            try:
+                m.setWriteOp(b'pong')
+            except Exception as e:  # noqa
+                errs['R'] = e
+            epr.cur = 'main'
+
+            def preader():
+                for x in P.readAsync(4, 4):
+                    yield x
+            pr = pump(lambda: m.result is None, [preader()])
+            out['pong'] = bytes(pr[0]) if isinstance(pr[0], (bytes, bytearray)) else repr(pr[0])
+        out['heartbeat_response'] = list(hb_seen)
+        if kind == 'pha':
+            cc = server.session.clientCertChain if server.session else None
+            out['pha_cert'] = None if cc is None else cc.getFingerprint()
+        if errs['R'] is None and errs['P'] is None:
+            # P closes and waits for R's close_notify, which R's read operation has to send
+            P.closeSocket = False
+            pump(lambda: R.closed, [P.closeAsync()])
+            out['after_close_reads'] = b''.join(m.reads)
+            out['closed'] = (bool(R.closed), bool(P.closed))
+        out['R'] = classify(('exc', errs['R'])) if errs['R'] is not None else ('ok',)
+        out['P'] = classify(('exc', errs['P'])) if errs['P'] is not None else ('ok',)
+        out['sendall_calls'] = (csock.n_sendall, ssock.n_sendall)
+        return out
+    finally:
+        clock.uninstall()
+        epr.uninstall()
+
+
+def worker_reply(task):
+    kind, ver, scheds, seed = task
+    name = 'reply-%s-%d.%d' % (kind, ver[0], ver[1])
+    try:
+        base = run_reply(kind, ver, {}, seed)
+        results = []
+        for s in scheds:
+            try:
+                o = run_reply(kind, ver, s, seed)
+                d = [(k, 0, base.get(k), o.get(k)) for k in sorted(set(base) | set(o)) if base.get(k) != o.get(k)]
+                results.append((s, d, o if d else None, None))
+            except Exception:  # noqa
+                import traceback
+                results.append((s, [('harness-exception', 0, None, traceback.format_exc()[-800:])], None, None))
+        return dict(name=name, seed=seed, deterministic=False, base=[dict(base, hs=base['hs'])], results=results, base_diff=[],
+                    reply=(kind, ver))
+    except Exception:  # noqa
+        import traceback
+        return dict(name=name, error=traceback.format_exc())
